@@ -43,6 +43,10 @@ def cases(tier):
                                     continue
                                 out.append({"k": k, "kinds": list(kinds), "sign": sign, "u": u, "pump": pump, "mode": mode,
                                             "numba": numba})
+                                # consumer table labelled in reverse, one extra switched-off consumer in its first row
+                                if sum(kd != "FC_HX" for kd in kinds) >= 1 and numba is False and sign == 1:
+                                    out.append({"k": k, "kinds": list(kinds), "sign": sign, "u": u, "pump": pump, "mode": mode,
+                                                "numba": numba, "variant": "oos_rev"})
     return out
 
 
@@ -64,6 +68,11 @@ def ladder_spec(c):
                     "u": c["u"], "text_k": 280.0, "sections": 2 if i == 0 else 1})
         ops.append({"op": "pipe", "id": "pr%d" % i, "from": "r%d" % (i + 1), "to": "r%d" % i, "length_km": 0.4, "d_mm": 80.0,
                     "u": c["u"], "text_k": 280.0})
+    variant = c.get("variant")
+    n_hc = sum(kd != "FC_HX" for kd in c["kinds"])
+    if variant == "oos_rev":
+        ops.append({"op": "heat_consumer", "id": "hc_off", "from": "s1", "to": "r1", "controlled_mdot_kg_per_s": 0.3, "qext_w": 50000.0,
+                    "in_service": False, "index": n_hc})
     for i, kind in enumerate(c["kinds"], start=1):
         sgn = c["sign"] if i == 1 else 1
         q = 60000.0 * sgn / i
@@ -84,6 +93,12 @@ def ladder_spec(c):
             ops.append({"op": "junction", "id": "m%d" % i, "pn_bar": 5.0, "tfluid_k": 330.0})
             ops.append({"op": "flow_control", "id": "fc%d" % i, "from": a, "to": "m%d" % i, "mdot": m})
             ops.append({"op": "heat_exchanger", "id": "hx%d" % i, "from": "m%d" % i, "to": b, "qext_w": q, "d_mm": 60.0})
+    if variant == "oos_rev":
+        pos = 0
+        for o in ops:
+            if o["op"] == "heat_consumer" and o["id"] != "hc_off":
+                o["index"] = n_hc - 1 - pos
+                pos += 1
     # the last rung of a mass-flow pump loop must be free to take the remaining flow
     return {"fluid": "water", "ops": ops}
 
@@ -119,6 +134,11 @@ def check_net(net, case, idmap):
     if len(net.heat_consumer):
         for idx, r in net.heat_consumer.iterrows():
             rr = net.res_heat_consumer.loc[idx]
+            if not r.in_service:
+                if not (np.isnan(rr.qext_w) and np.isnan(rr.deltat_k)):
+                    vs.append(viol("inactive_consumer_reports_duty", "switched-off consumer %s reports qext_w %r, deltat_k %r" % (
+                        idx, rr.qext_w, rr.deltat_k), **tag))
+                continue
             if np.isnan(rr.mdot_from_kg_per_s):
                 continue
             kind = [k for k, i in zip(case["kinds"], range(1, 9)) if "hc%d" % i in idmap and idmap["hc%d" % i][1] == idx][0]
